@@ -37,7 +37,14 @@ def is_date_spec(spec: str) -> bool:
 
 def is_short_date_spec(short_date: str) -> bool:
     """Returns True iff {short_date} is a valid short date."""
-    return len(short_date) == 6 and all(ch.isdigit() for ch in short_date)
+    if not (len(short_date) == 6 and all(ch.isdigit() for ch in short_date)):
+        return False
+    try:
+        from_short_date_spec(short_date)
+    except ValueError:
+        # e.g. '241399' or '240230'
+        return False
+    return True
 
 
 def is_long_date_spec(long_date: str) -> bool:
